@@ -6,6 +6,7 @@
 
 pub mod datum;
 pub mod generate;
+pub mod jsontree;
 pub mod term;
 
 use std::collections::HashMap;
